@@ -57,7 +57,7 @@ var c18E1 = []string{
 	"find_first(a, b)", "ceil(a)", "not_null(a, b)", "map(&b, a)", "group_by(a, &b)", "from_items(a)", "a == b", "a < b", "!a", "a && b", "join(b, a)", "pad_left(a, `3`)",
 }
 
-var c18E2 = []string{"a.type(@)", "(a | [@])", "a.not_null(@, 'd')", "[0].to_string(@)", "a[0].to_array(@)", "a.length(@)", "(a | {v: @})", "a.b.type(@)", "@", "[0]", "a", "*", "[*]", "length(@)", "type(@)", "[?@]", "x", "[]", "to_array(@)", "keys(@)", "@ == `1`", "[@, @]", "sum(@)", "sort(@)", "x.a"}
+var c18E2 = []string{"x || 'd'", "!x", "x == `null`", "`7`", "x || a || `0`", "[x || `1`]", "not_null(x, 'd')", "a.type(@)", "(a | [@])", "a.not_null(@, 'd')", "[0].to_string(@)", "a[0].to_array(@)", "a.length(@)", "(a | {v: @})", "a.b.type(@)", "@", "[0]", "a", "*", "[*]", "length(@)", "type(@)", "[?@]", "x", "[]", "to_array(@)", "keys(@)", "@ == `1`", "[@, @]", "sum(@)", "sort(@)", "x.a"}
 
 // H_C18_types: every result consists of plain JSON values only.
 func H_C18_types() {
